@@ -30,6 +30,10 @@ pub struct D15 {
 #[derive(Clone, Debug, Serialize, Deserialize)]
 pub struct Case15 {
     pub docs: Vec<D15>,
+    /// run with `--cram-compat`: Markdown documents execute in the single-script (Cram) mode,
+    /// which is the only way a custom skip code meets that executor
+    #[serde(default)]
+    pub cram_compat: bool,
 }
 
 fn code_pool() -> BoxedStrategy<u8> {
@@ -63,7 +67,21 @@ fn case_strategy() -> BoxedStrategy<Case15> {
                 tests,
             }
         });
-    vec(doc, 1..4).prop_map(|docs| Case15 { docs }).boxed()
+    (vec(doc, 1..4), proptest::bool::weighted(0.3))
+        .prop_map(|(mut docs, cram_compat)| {
+            if cram_compat {
+                // the single-script executor wants one skip code per document: the per-test
+                // setting of the first test (if any) is written on every test
+                for d in docs.iter_mut() {
+                    let code = d.tests[0].skip_code;
+                    for t in d.tests.iter_mut() {
+                        t.skip_code = if d.cram { None } else { code };
+                    }
+                }
+            }
+            Case15 { docs, cram_compat }
+        })
+        .boxed()
 }
 
 fn effective_skip(d: &D15, t: &T15) -> u8 {
@@ -127,6 +145,9 @@ fn check_case(c: &Case15) -> V {
         );
     }
     let mut args = vec!["test".to_string(), "-r".into(), "json".into(), "--no-color".into()];
+    if c.cram_compat {
+        args.push("--cram-compat".into());
+    }
     args.extend(paths.iter().cloned());
     let argv: Vec<&str> = args.iter().map(|s| s.as_str()).collect();
     let run = match run_scrut(&dir, &argv, 120) {
@@ -150,7 +171,9 @@ fn check_case(c: &Case15) -> V {
         .label_if(skip_not_first, "skipping_test_not_first")
         .label_if(fail_in_skipped, "failing_tests_in_skipped_document")
         .label_if(exits_80_unskipped, "exit_80_with_custom_code_in_force")
-        .label_if(c.docs.iter().any(|d| d.cram), "cram");
+        .label_if(c.docs.iter().any(|d| d.cram), "cram")
+        .label_if(c.cram_compat && c.docs.iter().any(|d| !d.cram), "markdown_in_cram_compat_mode")
+        .label_if(c.cram_compat && c.docs.iter().any(|d| !d.cram && d.tests.iter().any(|t| effective_skip(d, t) != 80)), "custom_skip_code_in_single_script_mode");
     let docs_dump = || texts.iter().enumerate().map(|(i, t)| format!("--- doc{i}:\n{t}")).collect::<Vec<_>>().join("\n");
     let kinds = match json_result_kinds(&run.stdout) {
         Ok(k) => k,
@@ -189,12 +212,12 @@ pub fn property() -> Property {
     Property {
         id: "C15",
         assumptions: vec![
-            "Cram documents only use the default skip code 80 (the format has no configuration)",
+            "Cram documents only use the default skip code 80 (the format has no configuration); custom codes reach the single-script executor through Markdown documents run with --cram-compat (one code per document there)",
             "timeouts are not generated here (C14 covers 'skipped after a timed-out test case')",
         ],
         parts: vec![Box::new(PropPart::<Case15> {
             name: "e2e",
-            rule: "1..3 documents (Markdown with optional document-level and per-test skip_document_code, Cram) x 1..4 tests; commands exit with codes from {0,1,7,9,80,81}; expected code aligned or not; skipping test at any position with or without a matching [code] line; `scrut test -r json` result kinds and exit status vs. model. Non-trivial: custom code, skipping test not first, or failing tests in a skipped document",
+            rule: "1..3 documents (Markdown with optional document-level and per-test skip_document_code, Cram; 30% of the runs with --cram-compat) x 1..4 tests; commands exit with codes from {0,1,7,9,80,81}; expected code aligned or not; skipping test at any position with or without a matching [code] line; `scrut test -r json` result kinds and exit status vs. model. Non-trivial: custom code, skipping test not first, or failing tests in a skipped document",
             quick: 1_000,
             thorough: 10_000,
             max_workers: 12,
